@@ -345,7 +345,7 @@ func CheckChangesScope(opts migrate.PlanOptions, changes []schema.Change) error 
 		}
 		for _, c := range t.Columns {
 			e, ok := c.Type.Type.(*schema.EnumType)
-			if ok && e.Schema != nil && e.Schema.Name != "" {
+			if ok && e.Schema != nil && e.Schema.Name != "" && t.Schema != nil {
 				names[t.Schema.Name] = struct{}{}
 			}
 		}
